@@ -839,7 +839,17 @@ def generate(ctx):
     return metas, errors
 
 
+def _private_tmp(ctx):
+    """Scratch files of a run against another tree (VERIF_REPO) must not collide with a concurrent run against
+    /repo: ctx.tmp is keyed by the property only."""
+    tag = getattr(core, "_REPO_TAG", "")
+    if tag and not ctx.tmp.endswith(tag):
+        ctx.tmp = ctx.tmp + tag
+        os.makedirs(ctx.tmp, exist_ok=True)
+
+
 def run(ctx):
+    _private_tmp(ctx)
     ok_build, out = ctx.build_harness(BINS)
     if not ok_build:
         ctx.violation("harness does not build against the current tree", {"broken": "harness-build", "log_tail": out[-3000:]}, False)
@@ -930,6 +940,7 @@ def run(ctx):
 
 
 def replay(ctx, rep):
+    _private_tmp(ctx)
     f = rep.get("failing_input")
     if f and "schedule" in f:
         ok_build, out = ctx.build_harness(BINS)
